@@ -606,7 +606,7 @@ func genMem(r *hx.Rng, wrap bool, leader bool) {
 	}
 }
 
-func genEtcd(r *hx.Rng, faults bool, reports bool) {
+func genEtcd(r *hx.Rng, faults bool, reports bool, wrap bool) {
 	do("reset", nil)
 	ninst := 1 + r.Intn(3)
 	live := map[int]bool{}
@@ -646,6 +646,9 @@ func genEtcd(r *hx.Rng, faults bool, reports bool) {
 			default:
 				v = uint64(r.Intn(5000))
 			}
+			if wrap && r.Chance(1, 3) {
+				v = bigs[r.Intn(len(bigs))] // heartbeat MaxFileKey near 2^64: SetMax stores it in etcd, the next batch wraps
+			}
 			do("estart", s(i, "set", v))
 			continue
 		}
@@ -655,6 +658,9 @@ func genEtcd(r *hx.Rng, faults bool, reports bool) {
 			c = uint64(400 + r.Intn(200))
 		case 1:
 			c = uint64(r.Intn(1500))
+		}
+		if wrap && r.Chance(1, 4) {
+			c = bigs[r.Intn(len(bigs))] // client supplied count (/dir/assign?count=): uint64 additions wrap
 		}
 		do("estart", s(i, "next", c))
 	}
@@ -746,9 +752,12 @@ func main() {
 	for k := 0; k < n; k++ {
 		genMem(r, false, false)
 		genMem(r, k%3 == 0, k%4 == 0)
-		genEtcd(r, false, false)
-		genEtcd(r, k%2 == 0, true)
-		genEtcd(r, true, false)
+		genEtcd(r, false, false, false)
+		genEtcd(r, k%2 == 0, true, false)
+		genEtcd(r, true, false, false)
+		if k%3 == 1 {
+			genEtcd(r, k%2 == 0, true, true)
+		}
 		genVid(r, true)
 		genVid(r, k%2 == 0)
 		if k%10 == 0 {
